@@ -227,9 +227,6 @@ func vPool(nodeSubnets []string, gateway, subnet string, vlan uint16, ranges ...
 		}
 		p.IPRanges = append(p.IPRanges, *ipr)
 	}
-	if err := fipCheck(p); err != nil {
-		panic(err)
-	}
 	return p
 }
 
